@@ -14,7 +14,7 @@ RULE = (
     " with 0x00, all-zero salt and salts with 1..15 leading zero bytes. Each exchange compares A, M1, K byte-for-byte with"
     " the reference accessory, requires the accessory to accept M1 and the client to accept the genuine M2, tries ALL 512"
     " single-bit flips of M2 (must be rejected) and a wrong setup code (accessory must reject M1', client must reject M2)."
-    " Distinct by (code, salt, a, b); non-trivial = every exchange (each exercises modexp, padding and both proofs)."
+    " PROTOCOL LEVEL: full pair-setup exchanges (real perform_pair_setup_part1/2) of the K / S / A / M2 leading-zero classes against the reference accessory, which must accept M5 (K is used as bytes, no integer round trip). Distinct by (code, salt, a, b); non-trivial = every exchange (each exercises modexp, padding and both proofs)."
 )
 ASSUMPTIONS = [
     "conformant accessory = fixed-width PAD() for A, B, S (384 bytes) and the 16 salt bytes as sent; g hashed as 0x05 in M1",
@@ -27,6 +27,7 @@ REQUIRED_COUNTERS = [
     "exchanges_compared", "m2_bitflips_rejected", "wrong_code_rejected",
     "class_A_leading_zero", "class_B_leading_zero", "class_S_leading_zero", "class_K_leading_zero",
     "class_M1_leading_zero", "class_M2_leading_zero", "class_salt_all_zero", "class_salt_leading_zero",
+    "protocol_level_leading_zero_K",
 ]
 
 USER = b"Pair-Setup"
@@ -191,7 +192,27 @@ def run(ctx) -> None:
             a = rng.getrandbits(128)
             b = rng.getrandbits(rng.choice([128, 256, 384]))
             one_exchange(ctx, code, salt, a or 1, b or 1, "random")
+    protocol_level(ctx)
+
+
+def protocol_level(ctx) -> None:
+    """The byte-level use of K inside pair-setup (anchor: protocol/__init__.py): full M1..M6 exchanges against the reference
+    accessory for the classes where an int round trip of K / S / A / M2 would lose a leading zero byte."""
+    from vf.props import c03
+
+    j = 0
+    for klass in ("K", "K", "S", "A", "M2"):
+        for k in range(ctx.pick(2, 24)):
+            j += 1
+            if ctx.mine(j):
+                before = ctx.counters.get("honest_accepted", 0)
+                c03.check_honest(ctx, ctx.grng("C02.protocol", klass, k, j), 20_000 + j, directed=klass)
+                if ctx.counters.get("honest_accepted", 0) > before:
+                    ctx.count(f"protocol_level_leading_zero_{klass}")
 
 
 def replay(ctx, d) -> None:
+    if d.get("kind") == "honest":
+        ctx.mark_inconclusive("protocol-level directed cases are re-run by the whole check")
+        return
     one_exchange(ctx, d["code"], d["salt"], d["a"], d["b"], d["tag"])
